@@ -800,10 +800,14 @@ pub struct ChildOutcome {
 }
 
 pub fn run_child(args: &[String], stdin_data: Option<&str>, env: &[(&str, String)]) -> ChildOutcome {
+    let exe = std::env::current_exe().expect("current_exe");
+    run_child_exe(&exe.to_string_lossy(), args, stdin_data, env)
+}
+
+pub fn run_child_exe(exe: &str, args: &[String], stdin_data: Option<&str>, env: &[(&str, String)]) -> ChildOutcome {
     use std::io::Write;
     use std::process::{Command, Stdio};
-    let exe = std::env::current_exe().expect("current_exe");
-    let mut cmd = Command::new(&exe);
+    let mut cmd = Command::new(exe);
     cmd.args(args).stdin(Stdio::piped()).stdout(Stdio::piped()).stderr(Stdio::null());
     for (k, v) in env {
         cmd.env(k, v);
